@@ -64,3 +64,7 @@ C('C35', 'reference model + icontract postconditions on flags_from_pkgconfig/mer
 C('C24', 'byte-level differential: command line (console script, python -m, in-process run()) vs FFI.emit_c_code() in the same environment/locale',
   'Exploration: random cdefs/preludes (non-ASCII, CR/CRLF, odd line separators), module names with packages, both subcommands, 8 styles of binding the FFI in exec-python scripts (direct, callable, --ffi-var, subclass, helper modules), file and stdout output, 4 locale environments; exit status and bytes compared; the __main__ block must not run.',
   'read-sources inputs are compared after universal-newline reading (what the tool and any Python text read do); cases whose reference emit_c_code itself raises are vacuous and counted.')
+
+C('C11', 'differential oracle (second cffi path): in-line FFI vs imported emit_python_code() module on generated cdefs, plus dlopen() of a gcc-built library defining the declared functions/globals',
+  'Exploration: generated cdefs (typedef chains, nested/anonymous aggregates with bitfields, enums, constants, functions, globals, FILE) compared item by item: type identity for non-aggregates, structural description for aggregates, constant values, list_types(), function/global types and addresses, values read and writes seen on the other side.',
+  'Sanitizer reports in the module-decoding path are observations only. Known findings: FILE in list_types(); in-line display name of typedef\'ed named aggregates.')
